@@ -68,6 +68,18 @@ CLAIMED = {
          "Decides the constants, tables, comparators and guards of ML-DSA that known-answer tests cannot pin for every input (NOT the lattice arithmetic): q/d/zeta/inv256, all 256 zetas, the three parameter literals vs FIPS 204 Table 1, key/signature lengths 1312/2560/2420, 1952/4032/3309, 2592/4896/4627, sigDecode accepting exactly the signature length, HintBitUnpack's counter/index/padding guards, the verification norm bound and challenge comparison, the four signing rejection bounds, context length <= 255, and prefix||signature for every signer incl. the external-mu signer (a genuine defect there was found and fixed).",
          "Trusted: go/ssa; FIPS 204 values transcribed in checker/rules/c10.go.",
          "DESIGN.md §4 C10"),
+ "C15": ("taint-style use census of the outputLength parameter; linear in-bounds proofs of every [:outputLength] slice (with hash.Hash.Sum/Size and constant-result-length knowledge); constant folding of the HKDF validator; phi/edge-fact rule for the default salt; digest-size tables",
+         "Decides structural clauses of C15 (NOT equality with HMAC/HKDF/CMAC values): outputLength influences only guards, slice bounds and read lengths in every ComputePRF (necessary condition of the prefix law); over-long requests fail rather than panic (slices proved in bounds from the maximum-length guards; KDF read errors tested); the HKDF helper accepts tag sizes 10..255*HashLen for the five hashes and substitutes exactly HashLen zero bytes for an empty salt; digest-size tables are standard. prf.Set pairing is decided under C05.",
+         "Trusted: go/ssa; len(h.Sum(nil)) == h.Size(); x/crypto hkdf.",
+         "DESIGN.md §4 C15"),
+ "C16": ("literal parameter tables compared with FIPS 205 Table 2 and its internal equations; constant folding of newParams (derived WOTS+ lengths) and of the signature-length guard for all six parameter sets; instance/hash-family pairing census; address-type constants; context-length guards",
+         "Decides the constants, derived parameters and guards of SLH-DSA (NOT the WOTS+/FORS/XMSS computation): the six literals vs FIPS 205 Table 2 with h=d*h' and the m equation, the twelve instances' literal/hash pairing, w/len1/len2/len folded from newParams, verifyInternal accepting exactly 7856/17088/16224/35664/29792/49856-byte signatures before slicing, address types 0..6, context length <= 255 on Sign/SignDeterministic/Verify.",
+         "Trusted: go/ssa; FIPS 205 values transcribed in checker/rules/c16.go; math/bits.Len semantics.",
+         "DESIGN.md §4 C16"),
+ "C17": ("value-identity/dominance rules for DeriveKeyset's loop (element, salt, fixed ID, primary condition); census of randomness references in the derivation packages; closure-capture writes via engine B (C18)",
+         "Decides structural clauses of C17 (NOT RFC 5869 value equality): DeriveKeyset derives every element's key from the caller's salt in a complete loop, adds it under that element's key ID and promotes exactly the element whose ID equals the deriver keyset's primary ID; the legacy wrapper keeps prefix type and uses ID requirement 0 exactly for RAW; no derivation function references crypto/rand or the random wrappers and every AddKeyWithOpts carries WithFixedID; registered deriver closures share no mutable state (C18).",
+         "Trusted: go/ssa; factory-side pairing decided under C05.",
+         "DESIGN.md §4 C17"),
 }
 
 NOT_APPLICABLE = {
